@@ -4,6 +4,8 @@ CONSTANTS
   Cfgs = {"c1", "c2", "c3", "c5", "c6", "c7"}
   OwnScaleCfgs = {"c3"}
   NiceSensitive = {"c7"}
+  NoOptCfgs = {"c7", "c9", "c10", "c11"}
+  ShareWhenOmitted = FALSE
   FitAxisAtExport = FALSE
   ReadsSharedDirection = FALSE
   ShareDefaultScale = FALSE
